@@ -21,7 +21,7 @@ CHECKS = {
          "aws-sdk-s3 is the standards-conforming client (it does not read trailers; those are judged on raw frames); the number of filler frames is recorded, not asserted; representations the wire cannot distinguish (absent metadata vs empty map, absent LocationConstraint vs empty element) are settled on the raw response"),
  "C19": ("fault_enumeration", "exhaustive enumeration of fault positions, abandon points and crash points of object writes, and all task interleavings (preemption-bounded for 3 tasks) at file-system-call granularity under a controlled scheduler over tokio's blocking pool, on the real s3s-fs backend",
          "DESIGN §4 C19, §2 E3",
-         "Faults: body I/O error after each frame, each checksum algorithm wrong and right, corrupted signature of each chunk, through the real service. Abandon and crash points: the write future is dropped (both while its file-system call is queued and after it completed) or the tree is copied and restarted after every single step. Schedules: all interleavings of two writers and of writer + reader (thousands of complete executions), three tasks with a preemption bound, each execution replayable from its choice sequence; determinism of the scheduler is self-checked on every configuration.",
+         "Faults: body I/O error after each frame, each checksum algorithm wrong and right, corrupted signature of each chunk, through the real service. Abandon and crash points: the write future is dropped (both while its file-system call is queued and after it completed) or the tree is copied and restarted after every single step. Schedules: all interleavings of two writers, of writer + reader and of two writers to different objects (tens of thousands of complete executions), three tasks with a preemption bound of 2 (thorough 3); content and user metadata a later read returns must belong to one version; each execution replayable from its choice sequence; determinism of the scheduler is self-checked on every configuration.",
          "one step = one task runs from one file-system await to the next; finer interleavings (inside one tokio::fs call) and power-loss semantics (unsynced pages) are outside the space"),
  "C18": ("model_checking", "explicit-state breadth-first search with the real s3s-fs backend as transition function against a reference in-memory store; canonical-state hashing; full read set evaluated in every state",
          "DESIGN §4 C18, §2 E4",
@@ -29,15 +29,15 @@ CHECKS = {
          "only property-defined observables are compared; where the statement is silent the model follows the implementation; universe sizes bound the histories; thorough is wall-capped and reports whether the fixpoint was reached"),
  "C17": ("exploration", "exhaustive enumeration of traversal-rich keys / copy sources / bucket names / upload ids x backend operations on the real s3s-fs backend, with whole-tree snapshot diff and marker search",
          "DESIGN §4 C17",
-         "All sequences of 1..3 segments over a 12-symbol traversal alphabet (with/without leading slash, plus deep escapes) x 18 operations at the S3 trait and GET/PUT/DELETE/copy through S3Service::call in three spellings, against a store with two marked buckets, a foreign open upload and a marked sentinel tree beside and above the root; after every operation the complete directory tree is diffed and everything read back is searched for foreign markers.",
+         "All sequences of 1..3 segments over a 12-symbol traversal alphabet (with/without leading slash, plus deep escapes) x 18 operations at the S3 trait and GET/PUT/DELETE/copy through S3Service::call in three spellings, against a store with two marked buckets, a foreign open upload and a marked sentinel tree beside and above the root; after every operation the complete directory tree is diffed and everything read back is searched for foreign markers; plus all interleavings of two concurrent writers to different objects under the controlled scheduler.",
          "symbolic links are not part of the space; segment alphabet and length <=3 bound the keys"),
  "C13": ("exploration", "bounded exhaustive enumeration of values per type (all single-member deviations) and of every instance of each document mutation operator, with differential oracles and an independent tokenizer, on the real public XML codec",
          "DESIGN §4 C13",
-         "For each of the ~250 types with both directions: base value and every single-member deviation to depth 6 over the XML alphabets -> encode -> well-formed (xmlparser) and decode == value; on the encoded base and a populated value every instance of truncation, rename/duplicate/delete/swap of elements, unknown child, second root, text outside the root, CDATA / comment / PI / character-reference rewrites and scalar perturbation of each text node, judged differentially (accepted => well-formed; meaning-preserving rewrite => same value; structural change => never silently without effect).",
+         "For each of the ~250 types with both directions: base value and every single-member deviation to depth 6 over the XML alphabets -> encode -> well-formed (xmlparser) and decode == value; on the encoded base and a populated value every instance of truncation, rename/duplicate/delete/swap of elements, unknown child, second root, text outside the root, CDATA / comment / PI / character-reference rewrites and scalar perturbation of each text node, attribute duplication / spelling / removal, and the same family on three other spellings of every document (self-closed, indented, comments/PI), judged differentially (accepted => well-formed; meaning-preserving rewrite => same value; structural change => never silently without effect).",
          "values outside the alphabets and more than one (thorough: two) simultaneous deviations are not covered; decoding by an independent S3 client is C02/C03's half"),
  "C16": ("exploration", "full-product enumeration of request classes x configurations executed under a capturing TRACE subscriber, plus renderings of every credential-bearing public value; byte search for the secret in 8 spellings",
          "DESIGN §4 C16",
-         "Every authentication path (accepted and each rejection path, incl. forms and chunk-signed uploads with mid-stream failures) under every relevant service configuration is executed with a thread-local subscriber that renders all events and span fields at TRACE; trace output, response head/body and backend-visible request are searched, as are Debug/serde renderings of SecretKey, Credentials, SimpleAuth and S3Request<Input> for all 96 operations.",
+         "Every authentication path (accepted and each rejection path, incl. forms and chunk-signed uploads with mid-stream failures) under every relevant service configuration is executed with a thread-local subscriber that renders all events and span fields at TRACE; trace output, response head/body and backend-visible request are searched, as are Debug/serde renderings of SecretKey, Credentials, SimpleAuth and S3Request<Input> for all 96 operations (serde through a recording serializer of both classes an impl can distinguish), and ~190 authentication failure modes (every field of every scheme removed / emptied / garbled / wrong / doubled).",
          "only formatting sites on enumerated paths are covered; derived key material is out of scope"),
  "C15": ("exploration", "exhaustive enumeration of event sequences up to a length bound and of value axes, emitted through the real S3Service::call and decoded by three independent decoders",
          "DESIGN §4 C15",
@@ -57,11 +57,11 @@ CHECKS = {
          "range strings in lenient list syntax, with a non-lower-case unit or a suffix length >= 2^63 are recorded, not judged; characters outside the alphabets are not covered"),
  "C10": ("exploration", "bounded exhaustive enumeration (deviation bound 2) of form shapes, file contents and policies plus every single-character mutation of the authentication fields, against a reference form verifier, on the real S3Service::call",
          "DESIGN §4 C10",
-         "A policy-signed base form with 0, 1 and 2 simultaneous deviations over ~300 axes (incl. every single byte value as file content, CR/LF runs, proper prefixes of the delimiter, 3 boundaries, 19 policies on both sides of the owned clock and of every condition) and every single-character mutation / removal / emptying of policy, signature, credential, date and algorithm. Acceptance is judged by a reference verifier (HMAC, expiry, each condition); an accepted upload is compared field-wise and byte-wise with the form.",
+         "Three signed forms whose body ends or fails with an I/O error after every byte offset (whatever reaches the backend is the complete file), and a policy-signed base form with 0, 1 and 2 simultaneous deviations over ~300 axes (incl. every single byte value as file content, CR/LF runs, proper prefixes of the delimiter, 3 boundaries, 19 policies on both sides of the owned clock and of every condition) and every single-character mutation / removal / emptying of policy, signature, credential, date and algorithm. Acceptance is judged by a reference verifier (HMAC, expiry, each condition); an accepted upload is compared field-wise and byte-wise with the form.",
          "clock owned through the verif-hooks seam; forms arrive in one frame (framing is C09); repeated fields and unknown condition operators are not judged"),
  "C09": ("model_checking", "stateless exhaustive exploration of transport schedules (frame partitions, empty frames, Pending/wake) with a deviation bound, directly on the real S3Service::call; differential oracle plus lost-wake-up detection under a virtual clock",
          "DESIGN §4 C09, §2 E2",
-         "For each of the four body kinds every schedule with at most k deviations from the default (k=2 quick, 3 thorough; a deviation is a cut point, an empty frame or a Pending-then-wake before any frame or before end-of-stream) is executed to completion on the implementation and compared with the single-frame run; a schedule that leaves the request Pending with no wake-up is detected deterministically through tokio's paused clock. Schedules are executions of the real code, so no model-code gap exists.",
+         "For each of the four body kinds (and 8 variants of the form whose file ends in CR/LF shapes) every schedule with at most k deviations from the default (k=2 quick, 3 thorough; a deviation is a cut point, an empty frame or a Pending-then-wake before any frame or before end-of-stream) is executed to completion on the implementation and compared with the single-frame run, as is every uniform partition into frames of 2..96 bytes; a schedule that leaves the request Pending with no wake-up is detected deterministically through tokio's paused clock. Schedules are executions of the real code, so no model-code gap exists.",
          "bodies are the four stated ones (16..892 bytes); more than k simultaneous deviations only in the all-1-byte schedules; hyper's wire parser is below the seam"),
  "C08": ("fault_enumeration", "exhaustive single-fault injection at every position of reference-encoded uploads under three framings, judged by a reference decoder at the backend's body stream, on the real S3Service::call",
          "DESIGN §4 C08",
@@ -69,19 +69,19 @@ CHECKS = {
          "reference encoder validated on the AWS documentation example; in the 64 KiB chunk, data-byte flips and truncations are taken on a stride (stated in the evidence), all header bytes are covered"),
  "C07": ("exploration", "full-product enumeration of request classes x operations x service configurations with a reference monitor over the ordered event log, on the real S3Service::call",
          "DESIGN §4 C07",
-         "The complete product of 16 request classes x all 96 operations (plus the POST form) x provider x 6 access-hook modes x 4 route modes x host parser is executed; a reference monitor checks on every event log that identities shown are the verified signer's, that check -> typed hook -> backend are ordered and agree on the operation, that nothing follows a denial and the denial's code is returned, and that without a provider any request presenting a signature is refused. No bound is needed: the space is finite and fully enumerated.",
+         "All histories of up to 2 (thorough 3) requests over 25 request kinds (four schemes x two identities x honest/forged, anonymous) on one service instance; then the complete product of 16 request classes x all 96 operations (plus the POST form) x provider x 6 access-hook modes x 4 route modes x host parser is executed; a reference monitor checks on every event log that identities shown are the verified signer's, that check -> typed hook -> backend are ordered and agree on the operation, that nothing follows a denial and the denial's code is returned, and that without a provider any request presenting a signature is refused. No bound is needed: the space is finite and fully enumerated.",
          "base requests are what aws-sdk-s3 encodes for base inputs; reference signers validated on documentation vectors; which operation a request denotes is C01's subject (here the stages must agree with each other)"),
  "C06": ("exploration", "bounded exhaustive enumeration of presigned URLs x expiry values x clock instants x single-parameter mutations, differential against a reference verifier, on the real S3Service::call with an owned clock",
          "DESIGN §4 C06",
-         "Every base URL (reference presigner, cross-checked with aws-sigv4's presigner) is replayed at server-clock instants on both sides of each window edge (+-1 s and +-1 ms) for 14 expiry spellings, and every single mutation / removal / duplication of every query parameter, signature digit, credential field, method, path byte and signed header is judged against the reference verifier. The window arithmetic and the coverage of the signature are finite-case questions once the clock is owned.",
+         "All histories of up to 3 presigned requests from two identities on one service instance; 7 signing instants at calendar boundaries x 5 expiries x a second-by-second clock sweep around every window edge; every base URL (reference presigner, cross-checked with aws-sigv4's presigner) is replayed at server-clock instants on both sides of each window edge (+-1 s and +-1 ms) for 14 expiry spellings, and every single mutation / removal / duplication of every query parameter, signature digit, credential field, method, path byte and signed header is judged against the reference verifier. The window arithmetic and the coverage of the signature are finite-case questions once the clock is owned.",
          "clock read through the verif-hooks seam; expiry values outside [1,604800] or in non-canonical spelling are recorded, not judged"),
  "C11": ("exploration", "bounded exhaustive enumeration of V2-signed requests x single-component mutations x clock instants, differential against a reference V2 verifier, on the real S3Service::call",
          "DESIGN §4 C11",
-         "Requests signed by a reference V2 signer (validated on the 4 documentation examples) over methods x paths x addressing style x every documented sub-resource x x-amz header shapes x Date/x-amz-date x header|presigned; each with every single-component mutation of the string-to-sign inputs and Expires on both sides of the clock.",
+         "All histories of up to 3 V2 requests from two identities on one service instance; requests signed by a reference V2 signer (validated on the 4 documentation examples) over methods x paths x addressing style x every documented sub-resource x x-amz header shapes (incl. repeated lines in descending order) x Date/x-amz-date x header|presigned; each with every single-component mutation of the string-to-sign inputs and Expires on both sides of the clock.",
          "clock read through the verif-hooks seam; sub-resource list as documented today (torrent not in the grid)"),
  "C05": ("exploration", "bounded exhaustive enumeration of signed requests x single-component mutations, differential against a reference verifier, on the real S3Service::call",
          "DESIGN §4 C05",
-         "A grid of honestly signed requests (5 methods x 15 paths x 10 query multisets x 10 signed-header shapes x payload/mode x HTTP/1.1|HTTP/2) times every applicable single-component mutation and 6 canonical-equivalent rewrites; every case runs through the real service and is compared with a reference verifier written from the AWS specification. Exhaustive over the stated grid: both directions of the iff (accept honest, reject every tampering) are decided per case.",
+         "All histories of up to 3 requests from two identities (honest / signed with the other identity's secret, two scopes, led by any other scheme) on one service instance, then a grid of honestly signed requests (5 methods x 15 paths x 10 query multisets x 10 signed-header shapes x payload/mode x HTTP/1.1|HTTP/2) times every applicable single-component mutation and 6 canonical-equivalent rewrites; every case runs through the real service and is compared with a reference verifier written from the AWS specification. Exhaustive over the stated grid: both directions of the iff (accept honest, reject every tampering) are decided per case.",
          "reference signer validated on the AWS documentation vectors at start-up and against the aws-sigv4 crate on every grid point (disagreeing points excluded and counted); values outside the grid and multi-component tampering are not covered"),
  "C20": ("exploration", "bounded exhaustive enumeration of pattern x input pairs and policy document shapes against a reference model, on the real code",
          "DESIGN §4 C20",
